@@ -152,7 +152,9 @@ fn stage_cfg(st: &Stage, thorough: bool, deadline: Instant, exe: &str) -> Explor
         bound: if thorough { st.bound.1 } else { st.bound.0 },
         workers,
         worker_cmd: vec!["/bin/sh".into(), "-c".into(), format!("ulimit -v {mem_kb}; exec \"$0\" worker"), exe.to_string()],
-        case_timeout: Duration::from_secs(st.timeout_s),
+        // the mutation sweeps run 8x as many option vectors per case in the thorough tier; the
+        // watchdog bounds the whole case, single calls are timed by the oracle itself
+        case_timeout: Duration::from_secs(if thorough && st.space.ends_with(".sweep") { st.timeout_s * 8 } else { st.timeout_s }),
         deadline: Some(deadline),
         max_cases: u64::MAX,
         n_samples: 3,
